@@ -42,6 +42,8 @@ pub struct KnownFinding {
 	pub signature: Vec<String>,
 	pub what: String,
 	pub fixed: bool,
+	/// further properties whose checks run into the same finding
+	pub also: Vec<String>,
 }
 
 static KNOWN: std::sync::OnceLock<Vec<KnownFinding>> = std::sync::OnceLock::new();
@@ -72,6 +74,7 @@ pub fn load_known_findings() -> Vec<KnownFinding> {
 				signature: j["signature"].as_array().map(|a| a.iter().map(|x| x.as_str().unwrap_or("").to_string()).collect()).unwrap_or_default(),
 				what: j["what"].as_str().unwrap_or("").into(),
 				fixed: j["status"].as_str().map_or(false, |s| s.starts_with("fixed")),
+				also: j["also"].as_array().map(|a| a.iter().map(|x| x.as_str().unwrap_or("").to_string()).collect()).unwrap_or_default(),
 			});
 		}
 	}
@@ -81,7 +84,7 @@ pub fn load_known_findings() -> Vec<KnownFinding> {
 /// Does a (minimised) violation match a listed, unfixed finding of this property?
 pub fn match_known(property: &str, rendering: &str) -> Option<KnownFinding> {
 	for k in known_findings().iter().cloned() {
-		if k.fixed || k.property != property || k.signature.is_empty() {
+		if k.fixed || (k.property != property && !k.also.iter().any(|p| p == property)) || k.signature.is_empty() {
 			continue
 		}
 		if k.signature.iter().all(|s| rendering.contains(s.as_str())) {
